@@ -145,16 +145,25 @@ fn run_sequence(c: &util::Committee, keys: &[validator::SecretKey], syms: &[Sym]
             }
             Op::Announce(ts) => {
                 let addr: std::net::SocketAddr = "10.9.9.9:9".parse().unwrap();
+                let before = real_book(&w, keys, syms).0;
                 rt.block_on(w.announce(&keys[0], addr, t(*ts)));
-                let version = model.get(&0).map(|x| x.0.wrapping_add(1)).unwrap_or(0);
-                model.insert(0, (version, t(*ts), addr));
                 let (after, bad) = real_book(&w, keys, syms);
                 if let Some(b) = bad {
                     return Some(format!("{b} (after announce)"));
                 }
-                if after != model {
-                    return Some(format!("after the node's own announcement the book is {after:?}, expected {model:?}"));
+                // the node's own entry is replaced only by a strictly newer (version, timestamp); nothing
+                // else changes (the property does not prescribe which version the node picks)
+                match (before.get(&0), after.get(&0)) {
+                    (Some(old), Some(new)) if old != new && (new.0, new.1) <= (old.0, old.1) => {
+                        return Some(format!("the node's own announcement replaced its entry {old:?} by {new:?}, which is not strictly newer in (version, timestamp) order (announce #{k} at t={ts})"));
+                    }
+                    (_, None) => return Some(format!("after the node's own announcement its entry is missing (announce #{k})")),
+                    _ => {}
                 }
+                if before.iter().filter(|(k, _)| **k != 0).ne(after.iter().filter(|(k, _)| **k != 0)) {
+                    return Some(format!("the node's own announcement changed entries of other validators: {before:?} -> {after:?}"));
+                }
+                model = after;
             }
         }
     }
@@ -193,6 +202,16 @@ pub fn run(args: &Args) -> Report {
         for y in &b2 {
             seqs.push(vec![Op::Batch(x.clone()), Op::Announce(150), Op::Batch(y.clone())]);
             seqs.push(vec![Op::Announce(150), Op::Batch(x.clone()), Op::Batch(y.clone())]);
+        }
+    }
+    // the node refreshes its own announcement (same address) with a later, an equal and an earlier
+    // timestamp (a clock stepped backwards, a restart on a host whose clock is behind), also after
+    // having learnt an entry for its own key from a peer
+    for t2 in [100i64, 150, 200] {
+        seqs.push(vec![Op::Announce(150), Op::Announce(t2)]);
+        for x in &b1 {
+            seqs.push(vec![Op::Announce(150), Op::Batch(x.clone()), Op::Announce(t2)]);
+            seqs.push(vec![Op::Batch(x.clone()), Op::Announce(150), Op::Announce(t2)]);
         }
     }
     if args.tier == crate::core::Tier::Thorough {
